@@ -126,8 +126,6 @@ func FuncBuilder(env *Zlisp, name string,
 	}
 	//Q("retHash = '%v'", retHash.SexpString(nil))
 
-	env.datastack.PushExpr(SexpNull)
-
 	//Q("FuncBuilder() about to call buildSexpFun")
 
 	// ===================================
